@@ -87,7 +87,7 @@ def tx(cmd, addr=None):
     return (":%X" % cmd + "".join("%02X" % b for b in data) + "%02X" % c + "\n").encode()
 
 
-def scenario(rng, t, dev):
+def scenario(rng, t, dev, long_text=False):
     """register contents of a simulated device: (answers dict, api-case line for the model, registers)"""
     regs = apicases.regs_of(t, dev)
     answers = {tx(1): ping_resp(), tx(4): done_resp(le(dev, 2))}
@@ -106,6 +106,11 @@ def scenario(rng, t, dev):
                 # control characters, a byte that is not UTF-8, a two-byte character: printed as the device holds them,
                 # whatever the logging flags are
                 v = list(rng.choice([b"Cabin\tbank %d", b"a\x01b\x7f %d", b"M\xe9ller %d", b"caf\xc3\xa9\t%d", b"x\x00y %d"]) % rng.below(100)) + [0] * rng.below(3)
+            if kind == 2 and long_text:
+                # a long text (a user-set description): more than 256 bytes arrive during this one command
+                n = rng.choice([123, 130, 150, 200])
+                v = [0x41 + (i * 7 + n) % 26 for i in range(n)] + [0] * rng.below(3)
+                long_text = False
             a = get_resp(r["addr"], v)
             answers[tx(7, r["addr"])] = a
             react.append([ev_data(a)])
@@ -205,7 +210,8 @@ def run(res, args):
     evals, samples = 0, []
     for dev in devs:
         for rep in range(1 if res.tier == "quick" else 3):
-            answers, case, regs = scenario(rng, t, dev)
+            flags = [[], ["-v"], ["--io-log", os.path.join(common.BUILD, "tmp", "c20-io.log")]][(rep + devs.index(dev)) % 3]
+            answers, case, regs = scenario(rng, t, dev, long_text="--io-log" in flags)
             cf = os.path.join(common.BUILD, "c20case.txt")
             open(cf, "w").write(case.line() + "\n")
             rc, mout = common.sh("%s apimodel %s" % (common.GVMODEL, cf))
@@ -213,7 +219,6 @@ def run(res, args):
             if rc != 0 or not m or m.group(2) != "ok":
                 raise Broken("the model does not complete the CLI scenario for device %#x" % dev, mout[-1500:])
             model_tokens = dict(x.split("=", 1) for x in m.group(3).split("~")) if m.group(3) else {}
-            flags = [[], ["-v"], ["--io-log", os.path.join(common.BUILD, "tmp", "c20-io.log")]][(rep + devs.index(dev)) % 3]
             if "--io-log" in flags and os.path.exists(flags[1]):
                 os.remove(flags[1])
             r = run_cli(answers, flags)
